@@ -1157,8 +1157,8 @@ class C16(Check):
             cases.append({"spec": spec, "plan": ({rng.randrange(max(n, 1)): "fake"} if rng.random() < 0.5 else {}), "backup": None,
                           "conv_err": rng.random() < 0.5, "kind": "fsolve-primary", "solver": "fsolve"})
         ks = list(range(n))
-        if not exhaustive and len(ks) > 10:
-            ks = sorted(rng.sample(ks, 10))
+        if not exhaustive and len(ks) > 8:
+            ks = sorted(rng.sample(ks, 8))
         for k in ks:
             if exhaustive:
                 combos = [(kind, bk, ce) for kind in FAULT_KINDS for bk in (None, "newton") for ce in (False, True)]
@@ -1346,7 +1346,7 @@ class C16(Check):
                     "kind": item.get("kind", "corpus"), "solver": item.get("solver")}
             groups.append((clean, [case]))
             ctx.count("corpus")
-        nspec = 20 if ctx.quick else 100
+        nspec = 15 if ctx.quick else 100
         for i in range(nspec):
             spec = random_spec(rng, ctx.quick)
             groups.append(self.cases_for(ctx, spec, exhaustive=(not ctx.quick and i % 4 == 0)))
